@@ -166,26 +166,28 @@ func (nd *ndArrayTypeC) MustReshape(newShape []int) data.NDArrayType {
 	return result
 }
 
-func (nd *ndArrayTypeC) Get1(loc int) data.ArrayType {
-	var idx []int
-
+// index1 is the full index of position loc of a series: along the only axis of a
+// 1-D array, or along the first axis longer than one (so that a 1xN view is a series too)
+func (nd *ndArrayTypeC) index1(loc int) []int {
 	if len(nd.Dims) == 1 {
-		idx = []int{loc}
-	} else {
-		idx = nd.NewIndex(0)
-		for i := 0; i < len(nd.Dims); i++ {
-			if nd.Dims[i] > 1 {
-				idx[i] = loc
-				break
-			}
-		}
-		//		fmt.Println("nDims>1",idx,nd.Dims,loc)
+		return []int{loc}
 	}
-	return nd.Get(idx)
+	idx := nd.NewIndex(0)
+	for i := 0; i < len(nd.Dims); i++ {
+		if nd.Dims[i] > 1 {
+			idx[i] = loc
+			break
+		}
+	}
+	return idx
+}
+
+func (nd *ndArrayTypeC) Get1(loc int) data.ArrayType {
+	return nd.Get(nd.index1(loc))
 }
 
 func (nd *ndArrayTypeC) Set1(loc int, val data.ArrayType) {
-	nd.Set([]int{loc}, val)
+	nd.Set(nd.index1(loc), val)
 }
 
 func (nd *ndArrayTypeC) Apply1(loc int, step int, vals []data.ArrayType) {
